@@ -39,7 +39,7 @@ L == [ lor |-> 1, lxor |-> 2, land |-> 3, print |-> 4, yield |-> 5, assign |-> 6
        bor |-> 9, band |-> 10, bitor |-> 11, bitxor |-> 12, bitand |-> 13, eq |-> 14, cmp |-> 15, shift |-> 16,
        add |-> 17, mul |-> 18, not |-> 19, instof |-> 20, unary |-> 21, pow |-> 22, clone |-> 23, atom |-> 30 ]
 
-\* fam: "both" | "7" (PHP 7-only syntax: PHP 5 must reject it) | "73" (needs the flexible heredoc rule of >= 7.3) | "7g" (accepted by both, but PHP 5 groups it
+\* fam: "both" | "7" (PHP 7-only syntax: PHP 5 must reject it) | "73" (needs the flexible heredoc rule of >= 7.3) | "pre73" (valid only BEFORE 7.3) | "7g" (accepted by both, but PHP 5 groups it
 \* differently: uniform variable syntax) | "5" (PHP 5 only)
 V(id, kind, cats, fam, lvl, leaf, fill) ==
    [id |-> id, kind |-> kind, cats |-> cats, fam |-> fam, lvl |-> lvl, leaf |-> leaf, fill |-> fill]
@@ -421,6 +421,7 @@ More == <<
 
 HdText == Nd("ScalarEncapsedStringPart", [EncapsedStrTkn |-> TkG("HDTEXT", "LR"), Value |-> Vl("EncapsedStrTkn")])
 NdText == Nd("ScalarEncapsedStringPart", [EncapsedStrTkn |-> TkG("NDTEXT", "LR"), Value |-> Vl("EncapsedStrTkn")])
+HdTextLabelLine == Nd("ScalarEncapsedStringPart", [EncapsedStrTkn |-> TkG("HDTEXT_LABELLINE", "LR"), Value |-> Vl("EncapsedStrTkn")])
 HdTextIndent == Nd("ScalarEncapsedStringPart", [EncapsedStrTkn |-> TkG("HDTEXT_INDENT", "LR"), Value |-> Vl("EncapsedStrTkn")])
 Heredoc(start, parts) == Nd("ScalarHeredoc", [OpenHeredocTkn |-> TkG(start, "R"), Parts |-> Sq(parts), CloseHeredocTkn |-> TkG("HEREDOC_END", "LR")])
 HeredocEmpty(start) == Nd("ScalarHeredoc", [OpenHeredocTkn |-> TkG(start, "R"), CloseHeredocTkn |-> TkG("HEREDOC_END", "LR")])
@@ -448,6 +449,9 @@ Heredocs == <<
                     CloseBracketTkn |-> Tk("]")]),
                 CloseCurlyBracketTkn |-> TkG("}", "R")]),
             HdText>>)),
+  \* the other side of the 7.3 change: a body line that begins with the label followed by more text is body text before 7.3
+  \* (valid, one string part) and ends the heredoc from 7.3 on (the rest of the line is then a syntax error)
+  EchoHd("heredoc/labelline", "pre73", Heredoc("HEREDOC_START", <<HdTextLabelLine>>)),
   \* flexible heredoc (>= 7.3): indented closing label (the indentation stays in the last text part), heredoc inside an argument list
   EchoHd("heredoc/indented", "73", Heredoc("HEREDOC_START", <<HdTextIndent>>)),
   V("heredoc/arg", "ExprFunctionCall", {"expr"}, "73", L.atom, TRUE,
